@@ -40,9 +40,8 @@ macro_rules! prim_shape {
                     3 => { let v = r.dword(); if rest >= 4 { assert!(v.as_ref().ok().copied() == fmt::le_u32(&d, p), "dword is little-endian u32"); } else { assert!(is_eof(&v), "short dword"); } core::mem::forget(v); }
                     4 => { let v = r.long(); if rest >= 4 { assert!(v.as_ref().ok().copied() == fmt::le_i32(&d, p), "long is two's-complement little-endian i32"); } else { assert!(is_eof(&v), "short long"); } core::mem::forget(v); }
                     _ => {
-                        let mut buf = [0u8; 3];
-                        let v = r.read_exact(&mut buf);
-                        if rest >= 3 { assert!(v.is_ok() && buf[..] == d[p..p + 3], "read_exact copies exactly the next bytes"); } else { assert!(is_eof(&v), "short read_exact"); }
+                        let v = r.skip_reserved(3);
+                        if rest >= 3 { assert!(v.is_ok(), "skip_reserved of available bytes"); } else { assert!(is_eof(&v), "short skip_reserved"); }
                         core::mem::forget(v);
                     }
                 }
